@@ -78,22 +78,27 @@ static void gen_model(struct sim_prng *r)
 	P.m_rng = PICK(r, 0, 0, 1, 2);
 }
 
-static void gen_params(const char *profile, uint64_t seed)
+static void gen_params(const char *profile, uint64_t base, long idx)
 {
 	struct sim_prng rc, rm, rs;
+	uint64_t seed = mix64(base, (uint64_t)idx);
+	uint64_t mseed = seed;
+	bool c09 = !strcmp(profile, "c09");
+	if(c09) /* metamorphic groups of 4: same model and prng seed, different configuration and schedule */
+		mseed = mix64(base, 0xC09000u + (uint64_t)(idx / 4));
 	params_default();
 	prng_seed(&rc, mix64(seed, 0xc0f));
-	prng_seed(&rm, mix64(seed, 0x30d));
+	prng_seed(&rm, mix64(mseed, 0x30d));
 	prng_seed(&rs, mix64(seed, 0x5c4));
 	P.seed = (int64_t)(seed & 0x7fffffffffffffffULL);
 	P.dseed = (int64_t)(mix64(seed, 1) >> 1);
-	P.mseed = (int64_t)(mix64(seed, 2) >> 1);
-	P.prng_seed = (int64_t)(mix64(seed, 3) >> 1);
+	P.mseed = (int64_t)(mix64(mseed, 2) >> 1);
+	P.prng_seed = (int64_t)(mix64(mseed, 3) >> 1);
 	P.tsc_seed = (int64_t)(mix64(seed, 4) >> 1);
 	P.engine = 0;
 	P.n_ranks = 1;
 	P.n_threads = PICK(&rc, 1, 2, 2, 2, 3, 3, 4, 6);
-	P.n_lps = PICK(&rc, 1, 2, 3, 4, 4, 5, 6, 8, 8, 11, 16);
+	P.n_lps = PICK(c09 ? &rm : &rc, 1, 2, 3, 4, 4, 5, 6, 8, 8, 11, 16);
 	P.ckpt_interval = PICK(&rc, 0, 1, 2, 3, 5, 8);
 	P.gvt_period = PICK(&rc, 0, 0, 1, 5, 50, 1000, 100000);
 	gen_model(&rm);
@@ -185,6 +190,14 @@ static void gen_params(const char *profile, uint64_t seed)
 		P.mpi_delay = PICK(&rs, 0, 10, 200, 3000);
 		P.mpi_empty_probe = PICK(&rs, 0, 10, 50);
 		P.mpi_coll_delay = PICK(&rs, 0, 3, 40);
+	} else if(c09) {
+		P.m_rng = PICK(&rm, 1, 2, 2);
+		P.n_ranks = 1 + (int64_t)prng_below(&rc, VERIF_NRANKS);
+		if(P.n_lps < P.n_ranks)
+			P.n_ranks = P.n_lps;
+		P.core_binding = PICK(&rc, 0, 1);
+		P.mpi_delay = PICK(&rs, 0, 10, 200);
+		P.mpi_coll_delay = PICK(&rs, 0, 3);
 	} else if(!strcmp(profile, "mm")) {
 		P.engine = 1;
 		P.u_ops = PICK(&rc, 10, 40, 120, 200);
@@ -391,7 +404,7 @@ int main(int argc, char **argv)
 		clock_gettime(CLOCK_MONOTONIC, &t0);
 		for(long k = 0; k < count; k++) {
 			long idx = start + k * stride;
-			gen_params(profile, mix64(seed, (uint64_t)idx));
+			gen_params(profile, seed, idx);
 			apply_sets(argc, argv);
 			char rp[400];
 			rp[0] = 0;
@@ -432,7 +445,7 @@ int main(int argc, char **argv)
 		} else {
 			uint64_t seed = strtoull(arg_val(argc, argv, "--seed", "1"), NULL, 0);
 			long idx = atol(arg_val(argc, argv, "--idx", "0"));
-			gen_params(arg_val(argc, argv, "--profile", "tw"), mix64(seed, (uint64_t)idx));
+			gen_params(arg_val(argc, argv, "--profile", "tw"), seed, idx);
 		}
 		apply_sets(argc, argv);
 		if(arg_flag(argc, argv, "--print-params")) {
@@ -440,6 +453,11 @@ int main(int argc, char **argv)
 			PARAM_LIST(X)
 #undef X
 			return 0;
+		}
+		const char *oa = arg_val(argc, argv, "--out-always", NULL);
+		if(oa) {
+			G.didx = 0;
+			replay_write(oa, NULL); /* parameters only: the decisions are re-drawn from dseed */
 		}
 		run_forked(arg_val(argc, argv, "--out", NULL), out, sizeof(out), timeout_s);
 		fputs(out, stdout);
